@@ -152,6 +152,43 @@ ALIASES = {
         "lambda IM: (vmi.Ibeta(IM), vmi.Distributions('cc', 'MIN', 2).image(IM).Ibeta(1))",
     'rIbeta==Distributions.image.rIbeta':
         "lambda IM: (vmi.rIbeta(IM), vmi.Distributions('cc', 'MIN', 2).image(IM).rIbeta(1))",
+    # the same wrappers with NON-default values of every argument they forward
+    'harmonics(args)==Distributions(args).image.harmonics':
+        "lambda IM: (vmi.harmonics(IM, (IM.shape[0] // 2 - 1, IM.shape[1] // 2 + 1), 'min', 4, method='linear'), "
+        "vmi.Distributions((IM.shape[0] // 2 - 1, IM.shape[1] // 2 + 1), 'min', 4, method='linear').image(IM).harmonics())",
+    'rharmonics(args)==Distributions(args).image.rharmonics':
+        "lambda IM: (vmi.rharmonics(IM, 'cl', 'hor', 4, use_sin=False), "
+        "vmi.Distributions('cl', 'hor', 4, use_sin=False).image(IM).rharmonics())",
+    'Ibeta(window=3)==Distributions.image.Ibeta(3)':
+        "lambda IM: (vmi.Ibeta(IM, 'cc', 'MIN', 4, window=3), vmi.Distributions('cc', 'MIN', 4).image(IM).Ibeta(3))",
+    'rIbeta(window=5)==Distributions.image.rIbeta(5)':
+        "lambda IM: (vmi.rIbeta(IM, 'cc', 'MIN', 2, window=5), vmi.Distributions('cc', 'MIN', 2).image(IM).rIbeta(5))",
+    'rIbeta(window=3,args)==Distributions(args).image.rIbeta(3)':
+        "lambda IM: (vmi.rIbeta(IM, 'uc', 'ver', 2, 3, method='linear'), "
+        "vmi.Distributions('uc', 'ver', 2, method='linear').image(IM).rIbeta(3))",
+    'angular_integration_2D(args)==radial_intensity(int2D,args)':
+        "lambda IM: (np.array(vmi.angular_integration_2D(IM, origin=(9, 11), dr=0.5, dt=0.1)), "
+        "np.array(vmi.radial_intensity('int2D', IM, origin=(9, 11), dr=0.5, dt=0.1)))",
+    'angular_integration_3D(args)==radial_intensity(int3D,args)':
+        "lambda IM: (np.array(vmi.angular_integration_3D(IM, origin=(9, 11), dr=0.5, dt=0.1)), "
+        "np.array(vmi.radial_intensity('int3D', IM, origin=(9, 11), dr=0.5, dt=0.1)))",
+    'average_radial_intensity_2D(args)==radial_intensity(avg2D,args)':
+        "lambda IM: (np.array(vmi.average_radial_intensity_2D(IM, origin=(9, 11), dr=2.0, dt=0.2)), "
+        "np.array(vmi.radial_intensity('avg2D', IM, origin=(9, 11), dr=2.0, dt=0.2)))",
+    'average_radial_intensity_3D(args)==radial_intensity(avg3D,args)':
+        "lambda IM: (np.array(vmi.average_radial_intensity_3D(IM, origin=(9, 11), dr=2.0, dt=0.2)), "
+        "np.array(vmi.radial_intensity('avg3D', IM, origin=(9, 11), dr=2.0, dt=0.2)))",
+    'find_center(convolution)==find_origin(convolution)':
+        "lambda IM: (center.find_center(IM, 'convolution'), center.find_origin(IM, 'convolution'))",
+    'find_center_by_center_of_mass(round_output)==find_origin_by_center_of_mass(round_output)':
+        "lambda IM: (center.find_center_by_center_of_mass(IM, False, True), "
+        "center.find_origin_by_center_of_mass(IM, round_output=True))",
+    'find_center_by_gaussian_fit(round_output)==find_origin_by_gaussian_fit(round_output)':
+        "lambda IM: (center.find_center_by_gaussian_fit(IM, False, True), "
+        "center.find_origin_by_gaussian_fit(IM, round_output=True))",
+    'find_image_center_by_slice(args)==find_origin_by_slice(args)':
+        "lambda IM: (center.find_image_center_by_slice(IM, 5, (0, -1), 1), "
+        "center.find_origin_by_slice(IM, axes=1, slice_width=5, radial_range=(0, -1)))",
     'Transform-default==three_point-inverse':
         "lambda IM: (abel.Transform(IM).transform, abel.Transform(IM, direction='inverse', method='three_point', "
         "transform_options=dict(basis_dir=None)).transform)",
